@@ -670,9 +670,9 @@ func (vc *VC) applyContractX(fr *Frame, spec *FuncSpec, name string, sig *types.
 		// a callee that changes lock-protected ghost state (e.g. the contents
 		// of a shared cache) must be called with one of the protecting locks
 		// held, shared or exclusive
-		if !vc.lockChecksOff && vc.discovery == 0 && spec.Assumed && !spec.Shrinks && (spec.Iface != "" || vc.p.funcs[spec.Key] == nil || !strings.HasPrefix(spec.Key, "github.com/AdguardTeam/AdGuardDNS") && !strings.HasPrefix(spec.Key, "(*github.com/AdguardTeam/AdGuardDNS")) {
-			// (leaf operations only: interface and dependency contracts; a
-			// repository function may take the lock itself)
+		if !vc.lockChecksOff && vc.discovery == 0 && spec.NeedsLock {
+			// (only operations whose contract says `needslock`: e.g. storing
+			// into a cache whose contents a lock invariant speaks about)
 			prot := vc.p.protectedHeaps(vc)
 			done := map[string]bool{}
 			for _, m := range locs {
